@@ -113,6 +113,70 @@ export class TextNode extends Node {
   }
 }
 
+// ---- dynamic-slot components -------------------------------------------------------------------------------
+// Elements whose tag starts with `dyn-` are components with a shadow root in SlotMode.Dynamic that owns a FIXED list of
+// slot instances (name + slot values). setDynamicSlotHandler / applySlotUpdates follow shadow_root.ts.
+export const DYN_SLOTS = [
+  { name: '', values: { sa: 'A0', sb: 1, sC: { k: 'c0', list: [1, 2] }, sd: [10, 20], item: 'I0', al0: 'x0' } },
+  { name: 's1', values: { sa: 'A1', sb: 0, sC: { k: 'c1' }, sd: [], item: { v: 'iv', id: 7 } } },
+  { name: '', values: { sa: undefined, sb: null, sC: 'str', sd: [30], item: 'I2' } },
+]
+
+function collectSlotNodes(host, slot, out) {
+  const walk = (node) => {
+    for (const c of node.childNodes) {
+      if (c._$slotElement === slot) out.push(c)
+      if (c.kind === 'virtual' && c._$inheritSlots) walk(c)
+    }
+  }
+  walk(host)
+}
+
+class DynShadowRoot {
+  constructor(host) {
+    this.host = host
+    this.slots = DYN_SLOTS.map((d) => {
+      const e = new Element('virtual', host.ownerShadowRoot)
+      e.is = 'slot'
+      e._$slotName = d.name
+      e._$slotValues = { ...d.values }
+      Object.defineProperty(e, 'slotNodes', { get: () => { const out = []; collectSlotNodes(host, e, out); return out } })
+      return e
+    })
+    this.inserted = false
+    this.dynamicSlots = new Map()
+  }
+  getSlotMode() { return SlotMode.Dynamic }
+  setDynamicSlotHandler(names, insert, remove, update) {
+    this.names = names
+    this.insertHandler = insert
+    this.removeHandler = remove
+    this.updateHandler = update
+    if (this.inserted) {
+      for (const meta of this.dynamicSlots.values()) meta.updatePathTree = meta.updatePathTree || Object.create(null)
+    }
+  }
+  applySlotUpdates() {
+    if (!this.inserted) {
+      this.inserted = true
+      const slots = []
+      for (const slot of this.slots) {
+        this.dynamicSlots.set(slot, { updatePathTree: undefined })
+        slots.push({ slot, name: slot._$slotName, slotValues: slot._$slotValues })
+      }
+      if (this.insertHandler) this.insertHandler(slots)
+    } else {
+      for (const [slot, meta] of this.dynamicSlots.entries()) {
+        const t = meta.updatePathTree
+        if (t) {
+          meta.updatePathTree = undefined
+          if (this.updateHandler) this.updateHandler(slot, slot._$slotValues, t)
+        }
+      }
+    }
+  }
+}
+
 export class ShadowRoot extends Element {
   constructor() {
     super('root', null)
@@ -132,6 +196,11 @@ export class ShadowRoot extends Element {
     const n = new Element('el', this)
     n.is = tagName
     n.generics = genericImpls
+    if (typeof tagName === 'string' && tagName.startsWith('dyn-')) {
+      n._$isComponent = true
+      const sr = new DynShadowRoot(n)
+      n.getShadowRoot = () => sr
+    }
     if (initPropValues) initPropValues(n)
     return n
   }
